@@ -960,10 +960,14 @@ fn source_of_plan(r: &mut Rng, plan: &Plan, menu: &[(String, [u8; 32])], namer_n
                 "main".to_string()
             } else {
                 let mut k = r.below(pool.len().min(40) as u64) as usize;
-                while used.contains(&pool[k]) {
+                while k < pool.len() && used.contains(&pool[k]) {
                     k += 1;
                 }
-                pool[k].clone()
+                if k < pool.len() {
+                    pool[k].clone()
+                } else {
+                    format!("fresh.{i}")
+                }
             };
             used.insert(name.clone());
             named[i] = Some(name);
